@@ -17,3 +17,16 @@ type R struct {
 type RU struct {
 	X int32 `frugal:"7,optional,i32"`
 }
+
+// Named is a named struct (same shape as the leaf struct) for struct-name
+// matching and package-qualified annotations.
+type Named struct {
+	A int32   `frugal:"1,default,i32"`
+	B *string `frugal:"2,optional,string"`
+}
+
+// Emb is embedded (anonymous field) into generated structs as a decoy: its
+// tagged field must never reach the wire.
+type Emb struct {
+	EX int32 `frugal:"78,default,i32"`
+}
